@@ -254,6 +254,23 @@ def pStep (p : PSt) (line : String) : PSt × String :=
     match kvNat ws "n" with
     | some n => if p.mode != 3 || n < 2 || n > 100000 then (p, "bad-op") else (p, "strictly-increasing")
     | none => (p, "bad-op")
+  | "rafter" :: ws =>
+    match kvInt ws "d" with
+    | some d => if p.mode != 3 || d < -100000 || d > 50 then (p, "bad-op") else (p, "delivered")
+    | none => (p, "bad-op")
+  | ["rstep", w] =>
+    match kvNat [w] "win" with
+    | some ms =>
+      if p.mode != 3 || ms < 5 || ms > 1000 then (p, "bad-op") else
+      -- the clock steps one window ahead before the roll-over goroutine first looks at it: its timer is
+      -- due at once (After(d <= 0)); then a request takes the slot, a second waits for the next window end
+      let win := ms * 1000000
+      let cfg : Cfg := ⟨1, win, 4⟩
+      let ttl := 100 * win + 2000000000
+      match applyAll cfg (init cfg 0) [.tick win, .roll, .enq 0 ttl, .tick 1, .enq 0 ttl, .park 1, .tick win, .roll] with
+      | some s => (p, if phaseOf s.reqs 1 == .wokeDone then "waiter=released" else "waiter=expired")
+      | none => (p, "model-error")
+    | none => (p, "bad-op")
   | "rburst" :: ws =>
     match kvNat ws "win", (kv ws "prios").bind parsePrios with
     | some ms, some prios =>
@@ -580,6 +597,12 @@ def pjStep (p : PJ) (op out : String) : Except String PJ :=
   | "rclock" :: _ =>
     if out == "strictly-increasing" then .ok p
     else .error s!"production-clock-readings-tie:{pctEnc out}"
+  | "rafter" :: _ =>
+    if out == "delivered" then .ok p
+    else .error s!"production-clock-After-did-not-deliver:{pctEnc out}"
+  | "rstep" :: _ =>
+    if out == "waiter=released" then .ok p
+    else .error s!"waiter-whose-turn-came-was-not-released-after-a-clock-step:{pctEnc out}"
   | "rburst" :: ws =>
     match (kv ws "prios").bind parsePrios, (kv ows "order").bind (fun o => (o.splitOn ",").mapM String.toNat?) with
     | some prios, some order =>
